@@ -157,3 +157,6 @@ PROTECTED_FIELDS["owning_manager"] = "PluginScanContext.owning_manager: stored o
 for _f in ("_PyMarkdownLint__plugins", "_PyMarkdownLint__presentation", "_PyMarkdownLint__extensions", "_PyMarkdownLint__properties",
            "_PyMarkdownLint__string_to_scan"):
     PROTECTED_FIELDS[_f] = "stored only in PyMarkdownLint.__init__ (structural obligation C18::protected[PyMarkdownLint.*])"
+_R["$fields"].types.update({"os.altsep": "Optional[str]", "os.sep": "str"})
+
+_R["$namespace"].types.update({"paths": "List[str]", "recurse_directories": "bool", "alternate_extensions": "str", "list_files": "bool"})
